@@ -102,6 +102,11 @@ def _container(rng: random.Random, xs: list[str], single_ok: bool = True, kind: 
 
 
 def _is_plain(m: MG) -> bool:
+    """No counterfactual and no value-marked nodes (what `intervene` is generated for)."""
+    return all("@" not in n and n[:1] not in "+-" for n in m.N)
+
+
+def _no_cf(m: MG) -> bool:
     return all("@" not in n for n in m.N)
 
 
@@ -180,7 +185,7 @@ def gen_dsep_op(rng: random.Random, target: list, m: MG, focus: list | None = No
     end points come from its neighbourhood, it is itself neither an end point nor conditioned on, its
     neighbours are likely to be conditioned on -- so the answer depends on paths through the newcomer."""
     nodes = sorted(m.N)
-    if len(nodes) < 2 or not m.is_acyclic() or not _is_plain(m):
+    if len(nodes) < 2 or not m.is_acyclic() or not _no_cf(m):
         return None
     f = None
     if focus and rng.random() < 0.5:
@@ -290,7 +295,7 @@ def op_valid(spec: dict, m: MG) -> bool:
     if op == "are_d_separated":
         if a["a"] == a["b"] or not {a["a"], a["b"]} <= N or not set(a["C"]) <= N - {a["a"], a["b"]}:
             return False
-        if not m.is_acyclic() or not _is_plain(m):
+        if not m.is_acyclic() or not _no_cf(m):
             return False
     return True
 
@@ -575,7 +580,7 @@ class CaseRun:
         # digests of the sequential baseline for the cross-worker history check
         if base is not None:
             self.result_values = {
-                f"{r}.{c}.{k}": (v[2][0] if self.prop == "C02" else v[2])
+                f"{r}.{c}.{k}": (v[2][0] if self.prop == "C02" else _dsep_norm(v[2]) if v[1] == "dsep" else v[2])
                 for (r, c, k), v in sorted(base.items())
                 if v[0] == "ok" and v[3] and v[1] != "list" and v[2] != "badtype"
             }
@@ -926,6 +931,8 @@ class CaseRun:
             b = base.get(key)
             if b is None or b[0] != "ok":
                 return
+            if kind == "dsep" and _dsep_norm(b[2]) == _dsep_norm(got):
+                return  # same verdicts, same faithful records (the order of fields inside a record is not judged)
             if b[2] != got:
                 self.viol(
                     "O3" if self.prop == "C14" else "O4",
@@ -1028,13 +1035,14 @@ class CaseRun:
             if j["truth"] != j["sep"]:
                 self.viol("O3", op, "bool-differs-from-separated-field", pname, key=list(key), spec=spec, got=j)
                 return
-            if (j["left"], j["right"], j["cond"]) != (exp["left"], exp["right"], exp["cond"]):
+            # the record must be *faithful*: it names the two queried nodes and the conditioned set.  Whether it is
+            # also in the library's canonical order is not part of C04's statement and is only counted.
+            if {j["left"], j["right"]} != {exp["left"], exp["right"]} or sorted(set(j["cond"])) != exp["cond"]:
                 self.viol("O3", op, "record-fields-differ-from-query", pname, key=list(key), spec=spec, got=j, expected=exp)
                 return
-            if not j["canonical"] or j["cond_type"] != "tuple":
-                self.viol("O3", op, "record-not-canonical", pname, key=list(key), spec=spec, got=j)
-                return
-        if len(got) == 2 and got[0] != got[1]:
+            if j["canonical"] is not True or (j["left"], j["right"], j["cond"]) != (exp["left"], exp["right"], exp["cond"]):
+                self._probe("dsep.record-not-in-canonical-order(not-judged)")
+        if len(got) == 2 and got[0]["sep"] != got[1]["sep"]:
             self.viol("O2", op, "asymmetric-in-a-b", pname, key=list(key), spec=spec, got=got)
         pg = self.post_got.get(key)
         if pg is not None and pg[0] != pg[1]:
@@ -1134,6 +1142,14 @@ class CaseRun:
             self._probe(f"{op}:empty-S")
         if "S" in spec["a"] and S == set(m.N) and S:
             self._probe(f"{op}:S-is-all-nodes")
+
+
+def _dsep_norm(got: Any) -> Any:
+    """What C04 states about a judgement: the verdict, for which two nodes, given which set."""
+    try:
+        return [{"sep": j["sep"], "nodes": sorted([j["left"], j["right"]]), "cond": sorted(set(j["cond"]))} for j in got]
+    except Exception:  # noqa: BLE001
+        return got
 
 
 def _builds(h: dict) -> bool:
